@@ -258,6 +258,21 @@ pub fn hostile_messages_x(tier: &str, seed: u64) -> Vec<(Vec<u8>, String, Option
             }
         }
     }
+    // a name inside the RDATA that does not end within RDLENGTH, followed by an entry whose first bytes
+    // would complete it: the RDATA is decoded from exactly RDLENGTH bytes, so this is an error
+    for typ in [2u8, 5, 12, 23, 3, 4, 7, 8, 9, 15, 6, 33] {
+        for (rd, tail_owner) in [(vec![1u8, b'a'], vec![1u8, b'b', 0]), (vec![3, b'w', b'w'], vec![b'w', 0]), (vec![1, b'a', 2, b'x'], vec![b'y', 0])] {
+            let mut m = vec![0u8, 9, 0x84, 0, 0, 0, 0, 2, 0, 0, 0, 0];
+            m.extend_from_slice(&[0, 0, typ, 0, 1, 0, 0, 0, 60]);
+            let mut rdata_bytes = match typ { 15 => vec![0, 10], 33 => vec![0, 0, 0, 0, 0, 80], _ => vec![] };
+            rdata_bytes.extend_from_slice(&rd);
+            m.extend_from_slice(&(rdata_bytes.len() as u16).to_be_bytes());
+            m.extend_from_slice(&rdata_bytes);
+            m.extend_from_slice(&tail_owner);
+            m.extend_from_slice(&[0, 1, 0, 1, 0, 0, 0, 60, 0, 4, 127, 0, 0, 1]);
+            v.push((m, "rdata-name-runs-over".to_string(), None));
+        }
+    }
     // overlapping owner names: the owner of the second record is a pointer into the first record's
     // RDATA, to a label whose bytes run over the pointer itself and end on its first byte, its second
     // byte, or the byte after it (the record's TYPE, whose high byte 0 then terminates the name). The
@@ -370,6 +385,7 @@ pub fn c05(tier: &str, seed: u64) -> Vec<Case> {
         // the in-place bytes of the names inside it
         if let Some(want) = expected { if out != format!("ok {}", want) { c = c.fail("reference-encoding-misread", format!("the reference encoding of a packet does not parse to that packet: GOT {} WANT {}", &out[..out.len().min(700)], &want[..want.len().min(700)])); } }
         if out == "panic" { c = c.fail("parse-panic", "panic".into()); }
+        if tag == "rdata-name-runs-over" && class_of(&out) != "err" { c = c.fail("rdata-overrun-accepted", "a name inside the RDATA runs past RDLENGTH into the next entry and the message is accepted".into()); }
         v.push(c);
     }
     // valid packets too (mostly accepted)
@@ -440,6 +456,24 @@ pub fn c11(tier: &str, seed: u64) -> Vec<Case> {
                 None => { c = c.fail("reserialise-failed", format!("serialising a parsed packet: {}", out)); }
             }
             v.push(c);
+        }
+        // a proxy re-emits behind a two-byte length prefix (DNS over TCP) or after an earlier message in
+        // the same buffer: the same packet must come back from a writer that does not start at 0
+        if b.len() % 8 == 3 && b.len() < 4000 {
+            for comp in [false, true] {
+                let mut cur = std::io::Cursor::new(vec![0xAAu8; 5]);
+                cur.set_position(5);
+                watch("re-emit at a stream offset");
+                let pp = p.clone();
+                let ok = std::panic::catch_unwind(std::panic::AssertUnwindSafe(|| if comp { pp.write_compressed_to(&mut cur).is_ok() } else { pp.write_to(&mut cur).is_ok() })).unwrap_or(false);
+                let mut c = Case::oracle_only().tag("re-emitted-at-offset");
+                let expands = p.answers.iter().chain(p.name_servers.iter()).chain(p.additional_records.iter()).any(|r| simple_dns::verif::rdata_len(&r.rdata) > 65535);
+                if !expands {
+                    if !ok { c = c.fail("reserialise-failed", "serialising a parsed packet behind a length prefix fails".into()); }
+                    else { let back = parse_out(&cur.get_ref()[5..]); if back != format!("ok {}", ptxt) { c = c.fail("reserialise-differs", format!("re-emitted {} behind a 5-byte prefix, the message does not read back as the packet", if comp { "compressed" } else { "plain" })); } }
+                }
+                v.push(c);
+            }
         }
     }
     v
